@@ -599,6 +599,18 @@ theorem C13_handshake_in_progress_at_signal_not_accepted {g a : Bool} {s s' : St
     have := hg.running_not_taken hrn
     simp [incomingBranch, sigBranchReady, hrn, hb, hsig, this]
 
+/-- **A resolved serve future holds no connection it never accepted.**  In every reachable state in which the
+serve future has resolved, no connection is still `pending` — offered on `incoming` and not (yet) handed to the
+accept loop: queued on the stream, or inside `ServerIoStream`'s `JoinSet` with its TLS handshake running or just
+finished.  Returning drops `incoming` with everything queued on it and aborts the handshake tasks; and nothing
+offered afterwards is taken.  ("Resolves only after all connections have closed" for the connections that are
+not accepted ones; the accepted ones are `C13_resolve_only_when_all_closed`.  The harness observes it as `held`,
+clause `no-connection-held-after-resolve`; seed C13g: handshake tasks that outlive the serve future.) -/
+theorem C13_resolved_holds_no_unaccepted_connection {g b a : Bool} {s : State}
+    (h : Reachable g b a s) (hres : s.resolved = true) :
+    ∀ cn ∈ s.conns, cn.pending = false :=
+  fun cn hcn => ((good_reachable h).conns cn hcn).resolved_npending hres
+
 /-- (d, universal form) EVERY maximal run of the server's own steps resolves: take any reachable
 state in which shutdown has been requested and all connections are closeable (every call its
 caller still wants has its complete request and all the releases its handler needs, or handlers
